@@ -99,14 +99,15 @@ static void get_ftype (char const *const name,
 	snprintf(buff,4096,"%s",name);
 	EGioNParse(buff,128,"."," ",&argc,argv);
 	argc-=1;
-	if(argc)
+	/* a name without any token ("." , "..", "", a leading blank) gives argc = -1: there is no extension to look at */
+	if(argc > 0)
 	{
 		if(strncmp(argv[argc],"gz",3)==0) argc-=1;
 		else if(strncmp(argv[argc],"GZ",3)==0) argc-=1;
 		else if(strncmp(argv[argc],"bz2",4)==0) argc-=1;
 		else if(strncmp(argv[argc],"BZ2",4)==0) argc-=1;
 	}
-	if(argc)
+	if(argc > 0)
 	{
 		if(strncmp(argv[argc],"lp",3)==0) *ftype=1;
 		else if(strncmp(argv[argc],"LP",3)==0) *ftype=1;
